@@ -15,7 +15,8 @@ def run(c, tier):
     if lib.extract_replays(out, one) != 1:
         raise lib.ToolError("CastMatrix.tla printed nothing")
     c.add_tlc("CastMatrix.cfg", r)
-    cells = sorted(json.loads(open(one).read())["cells"], key=lambda x: json.dumps(x, sort_keys=True))
+    data = json.loads(open(one).read())
+    cells = sorted(data["cells"] + data.get("fwdcells", []), key=lambda x: json.dumps(x, sort_keys=True))
     jl = os.path.join(wd, "castm.jsonl")
     with open(jl, "w") as f:
         for k, cell in enumerate(cells):
@@ -39,8 +40,8 @@ def run(c, tier):
     for cell, r in zip(cells, res):
         msg = None
         if r["ok"] != cell["ok"]:
-            msg = "%s for %s on a type enabling %s (%s container) %s, but the requested traits are %s" % (
-                cell["op"], cell["req"], cell["enabled"], cell["kind"], "succeeded" if r["ok"] else "was refused",
+            msg = "%s for %s on a %s enabling %s (%s container) %s, but the requested traits are %s" % (
+                cell["op"], cell["req"], ("forward view of a type (forward list; owned list %s)" % cell["owned"]) if cell.get("via") == "fwd" else "type", cell["enabled"], cell["kind"], "succeeded" if r["ok"] else "was refused",
                 "not all present" if not cell["ok"] else "all present")
         elif cell["ok"] and cell["op"] != "check":
             want = [1000 + r["id"]] + [TAG[t] + r["id"] for t in cell["req"]]
@@ -48,7 +49,7 @@ def run(c, tier):
                 msg = "after %s for %s the calls reached %s, expected %s (same instance, mandatory + requested traits)" % (cell["op"], cell["req"], r["tags"], want)
         if msg is None and not r["still"]:
             msg = "after cast + upcast not every originally enabled trait is still present (%s)" % cell["enabled"]
-        if msg is None and cell["kind"] == "box":
+        if msg is None and cell["kind"] == "box" and cell.get("via") != "fwd":
             if r["drops_end"] != 1 or (cell["op"] in ("cast", "into") and not cell["ok"] and r["drops_after_op"] != 1) \
                or (cell["op"] in ("check", "as_ref", "as_mut") and r["drops_after_op"] != 0):
                 c.cov.setdefault("other_property_divergences", []).append("C06: drop counts %s in cell %s" % (r, cell))
